@@ -130,13 +130,17 @@ Definition div3 (sh : list nat) (h : list K) (per : list bool) (f : idx -> K) (v
                              (fun i => f (removelast i ++ [ax])) valid in
   fun i => 0 + d 0%nat (i ++ [0%nat]) + d 1%nat (i ++ [0%nat]) + d 2%nat (i ++ [0%nat]).
 
+(* tabulate an index function on its shape (identity on in-range indices; keeps evaluation cheap) *)
+Definition memo (sh : list nat) (f : idx -> K) : idx -> K := of_list 0 sh (to_list sh f).
+
 (* count_bps (tools.py:650-657): the list of local Bloch-point numbers along [dir] before rounding,
    c4 = 1/(4 pi); a0 < a1 are the two other axes *)
 Definition others (dir : nat) : nat * nat :=
   match dir with 0%nat => (1%nat, 2%nat) | 1%nat => (0%nat, 2%nat) | _ => (0%nat, 1%nat) end.
 Definition bp_profile (sh : list nat) (h : list K) (per : list bool) (dir : nat)
            (o : idx -> K) (valid : idx -> bool) : list K :=
-  let fdiv_ := div3 sh h per (emergent sh h per o valid) valid in
+  let em := memo (sh ++ [3%nat]) (emergent sh h per o valid) in
+  let fdiv_ := memo sh (div3 sh h per em valid) in
   let a0 := fst (others dir) in let a1 := snd (others dir) in
   map (fun k =>
          let plane := fsum K (map (fun p => fsum K (map (fun q =>
